@@ -102,5 +102,10 @@ Example C15_ex4 : ev0 "(list (string< ""ab"" ""b"") (string> ""ab"" ""b"") (conc
   = Ok (of_list [T; Nil; Str (s2t "abc")] Nil).
 Proof. vm_compute. reflexivity. Qed.
 
+(* REFUTED (known finding D55): a format string that ends inside a directive is    *)
+(* accepted, the % dropped                                                            *)
+Example C15_trailing_percent_is_an_error_refuted : ev0 "(format ""abc%"")" = Ok (Str (s2t "abc")).
+Proof. vm_compute. reflexivity. Qed.
+
 Check C15_format_is_render : forall F inp args acc,
   format_loop F inp args acc = render F (directives inp) args acc.
